@@ -7,7 +7,8 @@ import astwire
 import implobs
 from gens.programs import Opts, Gen
 
-THEOREMS = ['flags_nested', 'unbounded_flags', 'getResult_choice_not_infinite', 'maybeResult_flags_nested', 'maybeResult_bounded_has_choice']
+THEOREMS = ['flags_nested', 'unbounded_flags', 'getResult_choice_not_infinite', 'maybeResult_flags_nested', 'maybeResult_bounded_has_choice',
+            'reported_choices_valid_for_dependencies']
 RULE = ('while / do-while / counted for loops at any nesting depth of generated functions, each analysed by the real '
         'LoopAnalysis.inspect on its own; per variable: flags, bound and the choice object are handed to the Lean '
         'predicate check.C08, which looks among the reported choices (all 3^k tabulated, k<=6) for one at which the '
@@ -67,6 +68,8 @@ def observe_loop(loop_node):
 
     def wrapped(*c):
         r = orig(*c)
+        if 'pick' in captured:
+            return r       # only the first call is maybe_result's own (later ones come from get_result)
         try:
             captured['pick'] = None if r.infinite else list(r.first)
         except Exception:
